@@ -481,6 +481,24 @@ Section Env.
 End Env.
 
 (* ---------------------------------------------------------------------- *)
+(* two places where a task does NOT preserve content (known findings)       *)
+(* ---------------------------------------------------------------------- *)
+(* RTDCWriter stores fl1_max/fl2_max/fl3_max (and a few more) as uint32; the
+   HDF5 conversion clamps to the range of the destination type.  tdms2rtdc
+   goes through it with the signed peak maxima of the .tdms file. *)
+Definition h5_to_uint32 (v : Z) : Z := Z.max 0 (Z.min v 4294967295).
+
+(* condense_dataset: hw.store_feature(feat, ds[feat]) raises "Empty data
+   object" for an empty array: the features of [feats] that rtdc_copy has not
+   copied and that have no events make the task fail *)
+Definition condense_crashes (dsval : Z -> list elem) (feats : list Z)
+           (ev : list (Z * node)) : bool :=
+  existsb (fun x => match assoc x ev with
+                    | Some _ => false
+                    | None => (length (dsval x) =? 0)%nat
+                    end) feats.
+
+(* ---------------------------------------------------------------------- *)
 (* specification: the content of a file, layout forgotten                   *)
 (* ---------------------------------------------------------------------- *)
 (* what a reader sees of one dataset: shape, elements, attributes *)
@@ -581,11 +599,20 @@ Definition run_case (c : ccase) : list (list Z) :=
                 (if c_sel c =? 0 then FAll else if c_sel c =? 1 then FScalar
                  else if c_sel c =? 2 then FNone else FList (c_list c))
                 (nthb fl 0) (nthb fl 1) (nthb fl 2) (c_file c) in
-  enc_file out.
+  enc_file out
+  ++ (if c_task c =? 2 then
+        let g := rtdc_copy fe fs fb fd case_rekey FScalar true true true
+                           (c_file c) in
+        [[9; if condense_crashes dv
+                  (condense_features fsc (nthb fl 0) (nthb fl 1) (c_loaded c)
+                                     (c_basin c) (c_anc c) g) (f_events g)
+             then 1 else 0]]
+      else []).
 
 (* iter_chunks of a (shape, chunks) pair: flat list of slices, by [boxes]
    and by the odometer *)
 Definition enc_boxes (bs : list box) : list (list Z) :=
   map (flat_map (fun iv => [fst iv; snd iv])) bs.
+Definition run_uint32 (vs : list Z) : list Z := map h5_to_uint32 vs.
 Definition run_chunks (sc : list Z * list Z) : list (list (list Z)) :=
   [enc_boxes (boxes (fst sc) (snd sc)); enc_boxes (odometer (fst sc) (snd sc))].
